@@ -197,6 +197,36 @@ bool ops_module(Ctx &c, Toks const &t, std::string const &rest)
     cvm::clear_error();
     return true;
   }
+  if (op == "t.dump") {   // t.dump <file>: flush output streams, then report every line of a text output file
+    p->flush_output_streams();
+    std::ifstream tf(t[1].c_str());
+    std::string ln;
+    long nl = 0;
+    while (std::getline(tf, ln)) {
+      std::istringstream is(ln); std::string w; std::vector<std::string> toks;
+      while (is >> w) toks.push_back(w);
+      if (toks.empty()) continue;
+      nl++;
+      if (toks[0] == "#") {
+        std::vector<std::string> o; for (size_t i = 1; i < toks.size(); i++) o.push_back(stok(toks[i]));
+        c.out("tl", join(o));
+      } else {
+        // columns: a parenthesised group "( a , b , c )" is one column
+        std::vector<std::string> vals; long ncols = 0; bool in = false;
+        for (size_t i = 1; i < toks.size(); i++) {
+          if (toks[i] == "(") { in = true; ncols++; continue; }
+          if (toks[i] == ")") { in = false; continue; }
+          if (toks[i] == ",") continue;
+          if (!in) ncols++;
+          vals.push_back(ftok(std::strtod(toks[i].c_str(), nullptr)));
+        }
+        c.out("td", itok(std::strtoll(toks[0].c_str(), nullptr, 10)) + " " + itok(ncols));
+        c.out("tv", join(vals));
+      }
+    }
+    c.out("tn", itok(nl));
+    return true;
+  }
   if (op == "m.scriptq") {   // same call, only the return code is reported (scenarios that are not about the dispatcher)
     std::vector<std::string> args;
     for (size_t i = 1; i < t.size(); i++) args.push_back(unescape(t[i]));
